@@ -59,6 +59,9 @@ var c18Types = []reflect.Type{
 // dynamic types put into interface-typed slots
 var c18IfaceTypes = []reflect.Type{
 	typeOf18[int](), typeOf18[string](), typeOf18[*int](), typeOf18[*S18](), typeOf18[[]int](), typeOf18[*T18](),
+	// containers and pointers whose element type is the slot's own interface type (a *any inside an any, as a gomini variable of
+	// type *any is), records with interface-typed slots inside interface-typed slots
+	typeOf18[*any](), typeOf18[*any](), typeOf18[[]any](), typeOf18[map[string]any](), typeOf18[*W18](), typeOf18[**int](),
 }
 
 // ---- the gval encoding (mirror of Reflect.gval) ----
@@ -1097,6 +1100,9 @@ func runC18(cfg *Config) *Report {
 			rep.Notes = append(rep.Notes, s)
 		}
 	}
+	// the laws are laws of every call, whatever was called before: a long history of calls (nil and empty containers, scalars,
+	// functions that panic) and a very deep value come first, the generated cases run after them in the same process
+	c18History(rep)
 	for i := 0; i < cfg.N; i++ {
 		// every random choice of the case is made here, before deciding whether the index is kept
 		g := &gen18{r: r}
@@ -1402,4 +1408,129 @@ func runC18(cfg *Config) *Report {
 	}
 	cf.write(cfg.Out)
 	return rep
+}
+
+// c18History: a history of several hundred thousand calls of Map / Any / ZipReduce / IsNil on degenerate arguments (every spelling of
+// nil, empty containers, scalars, a function that panics and is recovered), then the laws on ordinary values again; and a value
+// nested 70000 levels deep mapped by a function that calls Map on each child (as gomini's rewrite does).
+func c18History(rep *Report) {
+	one := 1
+	degenerate := []any{nil, []int(nil), map[string]int(nil), (*S18)(nil), []*S18(nil), map[string]*S18(nil), []int{}, map[string]*S18{}, []*S18{},
+		5, "s1", &one, S18{}, &E18{}, []any(nil), (*any)(nil), (*W18)(nil)}
+	id := func(a any) any { return a }
+	boom := func(a any) any { panic("c18 history") }
+	never := func(a any) bool { return false }
+	sum := func(x, y any, acc int) int { return acc + 1 }
+	const rounds = 12000
+	for k := 0; k < rounds; k++ {
+		for _, d := range degenerate {
+			callMap18(d, id)
+			callAny18(d, never)
+			callIsNil18(d)
+			rt.ZipReduce(d, d, 1, sum)
+			rt.ZipReduce(d, []int{1}, 1, sum)
+		}
+		callMap18([]int{1}, boom)
+		callMap18(&S18{}, boom)
+		callMap18(map[string]int{"k": 1}, boom)
+		callAny18([]int{1}, func(a any) bool { panic("c18 history") })
+		func() {
+			defer func() { recover() }()
+			rt.ZipReduce([]int{1}, []int{1}, 1, func(x, y any, acc int) int { panic("c18 history") })
+		}()
+	}
+	rep.hist("history/calls-before-the-cases")
+	// the laws, after that history
+	calls := 0
+	res, pmsg := callMap18([]int{1, 2, 3}, func(a any) any { calls++; return a.(int) + 1 })
+	if got, ok := res.([]int); pmsg != "" || !ok || !reflect.DeepEqual(got, []int{2, 3, 4}) || calls != 3 {
+		rep.violate(-1, "map-after-history", fmt.Sprintf("%d rounds of Map/Any/ZipReduce/IsNil on nil, empty and scalar arguments and on functions that panic, then Map([]int{1,2,3}, +1)", rounds),
+			fmt.Sprintf("got %v (panic %q) with %d calls of the function, want [2 3 4] with 3 calls", res, pmsg, calls))
+	}
+	src := &S18{A: &S18{C: &one}, B: []*S18{{}, nil}}
+	res, pmsg = callMap18(src, id)
+	if got, ok := res.(*S18); pmsg != "" || !ok || got == src || !reflect.DeepEqual(got, src) {
+		rep.violate(-1, "map-after-history", fmt.Sprintf("%d rounds of calls on degenerate arguments, then Map(&S18{...}, identity)", rounds),
+			fmt.Sprintf("got %s (panic %q), want a deeply equal value in a fresh container", desc18(res), pmsg))
+	}
+	if hit, pmsg := callAny18([]int{1, 2, 3}, func(a any) bool { return a.(int) == 3 }); pmsg != "" || !hit {
+		rep.violate(-1, "any-after-history", fmt.Sprintf("%d rounds of calls on degenerate arguments, then Any([]int{1,2,3}, ==3)", rounds), fmt.Sprintf("got %v (panic %q), want true", hit, pmsg))
+	}
+	if n := rt.ZipReduce([]int{1, 2, 3}, []int{4, 5, 6}, 1, sum); n != 4 {
+		rep.violate(-1, "zip-after-history", fmt.Sprintf("%d rounds of calls on degenerate arguments, then ZipReduce([1 2 3],[4 5 6],1,count)", rounds), fmt.Sprintf("got %d, want 4", n))
+	}
+	// a deep value: a chain of 70000 records, mapped as rewrite maps (the function calls Map on each record it is handed)
+	const deep = 70000
+	var chain *S18
+	for i := 0; i < deep; i++ {
+		v := i
+		chain = &S18{A: chain, C: &v}
+	}
+	ncalls := 0
+	var f func(a any) any
+	f = func(a any) any {
+		ncalls++
+		switch a := a.(type) {
+		case *S18:
+			if a == nil {
+				return a
+			}
+			return rt.Map(a, f)
+		case *int:
+			if a == nil {
+				return a
+			}
+			v := *a + 1
+			return &v
+		}
+		return a
+	}
+	out, pmsg := callMap18(chain, f)
+	rep.hist("history/deep-chain")
+	if pmsg != "" {
+		rep.violate(-1, "map-deep", fmt.Sprintf("Map over a chain of %d records (f maps each record it is handed)", deep), "panic: "+pmsg)
+		return
+	}
+	o, _ := out.(*S18)
+	i, c := deep-1, chain
+	for ; c != nil && o != nil; i, c, o = i-1, c.A, o.A {
+		if o == c || o.C == nil || *o.C != i+1 || *c.C != i || o.B != nil || o.D != nil {
+			rep.violate(-1, "map-deep", fmt.Sprintf("Map over a chain of %d records (f maps each record it is handed and adds 1 to its number)", deep),
+				fmt.Sprintf("record at depth %d: fresh=%v number=%v, want a fresh record with number %d", deep-1-i, o != c, o.C, i+1))
+			return
+		}
+	}
+	if c != nil || o != nil || ncalls != 4*deep {
+		rep.violate(-1, "map-deep", fmt.Sprintf("Map over a chain of %d records", deep), fmt.Sprintf("result chain has a different length, or the function was called %d times instead of %d", ncalls, 4*deep))
+	}
+	// the same chain against a fresh copy through ZipReduce used as gomini's unify uses it, and Any as hasCycle uses it
+	var zf func(x, y any, acc int) int
+	zf = func(x, y any, acc int) int {
+		if xs, ok := x.(*S18); ok && xs != nil {
+			return rt.ZipReduce(x, y, acc, zf)
+		}
+		if xi, ok := x.(*int); ok && xi != nil {
+			if yi, ok := y.(*int); !ok || yi == nil || *yi != *xi {
+				return 0
+			}
+		}
+		return acc
+	}
+	copyChain := deepCopy18(chain)
+	if n := rt.ZipReduce(chain, copyChain, 7, zf); n != 7 {
+		rep.violate(-1, "zip-deep", fmt.Sprintf("ZipReduce of a chain of %d records with its deep copy (f descends with ZipReduce, compares numbers)", deep), fmt.Sprintf("got %d, want 7", n))
+	}
+	var pf func(a any) bool
+	pf = func(a any) bool {
+		if xs, ok := a.(*S18); ok && xs != nil {
+			return rt.Any(a, pf)
+		}
+		if xi, ok := a.(*int); ok && xi != nil {
+			return *xi == 0
+		}
+		return false
+	}
+	if hit, pmsg := callAny18(chain, pf); pmsg != "" || !hit {
+		rep.violate(-1, "any-deep", fmt.Sprintf("Any over a chain of %d records for the number at the far end (the predicate descends with Any)", deep), fmt.Sprintf("got %v (panic %q), want true", hit, pmsg))
+	}
 }
